@@ -25,10 +25,13 @@ import (
 	"fmt"
 	"io"
 	"math/rand"
+	"os"
 	"runtime"
 	"sort"
 	"strconv"
 	"strings"
+	"sync"
+	"time"
 
 	"github.com/ipfs/go-cid"
 	"github.com/ipld/go-ipld-prime/datamodel"
@@ -436,9 +439,46 @@ func validPath(s string) bool {
 
 // ---------------------------------------------------------------- run
 
+// watchdog: the code under test is called synchronously; if one case does not return within the
+// limit (an endless loop in a mutated / broken loader — e.g. Cleanup on a cyclic queue) onStuck runs
+// and the process ends.  Safety net only: no verdict depends on timing.
+func watchdog(limit time.Duration, onStuck func()) (kick func(), stop func()) {
+	var mu sync.Mutex
+	last := time.Now()
+	done := make(chan struct{})
+	go func() {
+		t := time.NewTicker(limit / 4)
+		defer t.Stop()
+		for {
+			select {
+			case <-done:
+				return
+			case <-t.C:
+				mu.Lock()
+				stuck := time.Since(last) > limit
+				mu.Unlock()
+				if stuck {
+					onStuck()
+					return
+				}
+			}
+		}
+	}()
+	return func() { mu.Lock(); last = time.Now(); mu.Unlock() }, func() { close(done) }
+}
+
 func Run(cases []reg.Case, out *reg.Out) {
 	runtime.GOMAXPROCS(1) // one P: the traversal goroutine and the driver interleave only at the hand-shakes
+	cur := ""
+	kick, stop := watchdog(20*time.Second, func() {
+		out.Fail("hang", "the loader did not return from an operation of case %s (endless loop)", cur)
+		out.Finish()
+		os.Exit(3)
+	})
+	defer stop()
 	for _, c := range cases {
+		cur = c.ID
+		kick()
 		out.BeginCase(c)
 		runCase(c, out)
 	}
@@ -630,6 +670,7 @@ type expItem struct {
 	c       int
 	present bool
 	block   bool
+	node    int
 }
 
 func newOracle(out *reg.Out) *oracle {
@@ -708,11 +749,11 @@ func (o *oracle) responderStream(skip int) []expItem {
 	for i := 0; i < len(o.lt); {
 		b := o.lt[i].block
 		if o.rem[b] {
-			out = append(out, expItem{b, true, len(out)+1 > skip && !seen[b]})
+			out = append(out, expItem{b, true, len(out)+1 > skip && !seen[b], i})
 			seen[b] = true
 			i++
 		} else {
-			out = append(out, expItem{b, false, false})
+			out = append(out, expItem{b, false, false, i})
 			i = o.skipSubtree(i)
 		}
 	}
@@ -742,8 +783,24 @@ func (o *oracle) online(on bool) {
 		o.isOn = true
 		if o.honest && o.hasLT {
 			o.expected = o.responderStream(o.loaded)
+			// known-finding input class: the responder lacks a block of the locally loaded prefix
+			// and the first `skip` links of its traversal reach beyond that prefix
+			lacks := false
 			for _, i := range o.prefix {
 				if !o.rem[o.lt[i].block] {
+					lacks = true
+				}
+			}
+			if lacks {
+				for k, e := range o.expected {
+					if k >= o.loaded {
+						break
+					}
+					if e.node >= len(o.prefix) {
+						o.lacksPref = true
+					}
+				}
+				if len(o.lt) > 0 && !o.rem[o.lt[0].block] {
 					o.lacksPref = true
 				}
 			}
@@ -1470,7 +1527,16 @@ func genRetryCorner2(r *rand.Rand, w *bufio.Writer, id string) {
 func Gen(seed int64, n int, tier string, w *bufio.Writer) {
 	runtime.GOMAXPROCS(1)
 	r := rand.New(rand.NewSource(seed))
+	// the generator drives the real loader to know what a traversal asks next; if that code hangs,
+	// keep the cases generated so far (corpus + these still run) instead of blocking the check
+	kick, stop := watchdog(20*time.Second, func() {
+		fmt.Fprintln(os.Stderr, "loader generator: the code under test does not return; stopping generation")
+		os.Exit(0)
+	})
+	defer stop()
 	for i := 0; i < n; i++ {
+		kick()
+		w.Flush()
 		switch i % 10 {
 		case 0, 1, 2:
 			genTraversal(r, w, fmt.Sprintf("h%d", i), false, 7)
